@@ -37,6 +37,7 @@ type SecureAead struct {
 	secret []byte
 	aead   cipher.AEAD
 	nonce  []byte
+	remain []byte
 }
 
 const (
@@ -117,25 +118,34 @@ func (sa *SecureAead) increaseNonce() {
 	}
 }
 func (sa *SecureAead) Read(b []byte) (n int, err error) {
+	if len(sa.remain) > 0 {
+		n = copy(b, sa.remain)
+		sa.remain = sa.remain[n:]
+		return
+	}
 	frame := make([]byte, secureConnFrameSize)
 	_, err = io.ReadFull(sa.conn, frame[:secureConnHeaderSize])
 	if err != nil {
 		return
 	}
-	n = int(binary.BigEndian.Uint16(frame))
-	sealed := make([]byte, n+sa.aead.Overhead())
+	fn := int(binary.BigEndian.Uint16(frame))
+	if fn > secureConnFrameSize {
+		return 0, fmt.Errorf("invalid secure frame size %d", fn)
+	}
+	sealed := make([]byte, fn+sa.aead.Overhead())
 	_, err = io.ReadFull(sa.conn, sealed)
 	if err != nil {
 		return
 	}
 
-	_, err = sa.aead.Open(frame[:0], sa.nonce, sealed[:], nil)
+	plain, err := sa.aead.Open(frame[:0], sa.nonce, sealed[:], nil)
 	if err != nil {
-		return
+		return 0, err
 	}
 	sa.increaseNonce()
 
-	copy(b, frame[:n])
+	n = copy(b, plain)
+	sa.remain = plain[n:]
 	return
 }
 
